@@ -338,6 +338,10 @@ class MergerConfig:
         """Load the external configuration file."""
         config = configparser.ConfigParser()
 
+        # The options of [rules] and [keys] are YAML Paths, whose keys are
+        # case-sensitive; only the option names of [defaults] are not.
+        config.optionxform = str  # type: ignore
+
         # Load the configuration file when one is specified
         config_file = (
             self.args.config
@@ -346,6 +350,11 @@ class MergerConfig:
 
         if config_file:
             config.read(config_file)
+            if "defaults" in config:
+                for option, value in list(config["defaults"].items()):
+                    if option != option.lower():
+                        del config["defaults"][option]
+                        config["defaults"][option.lower()] = value
 
         if "keys" in config_overrides:
             config["keys"] = config_overrides["keys"]
